@@ -13,6 +13,7 @@ let () =
     | "c06" | "c07" -> C06.run_line
     | "c08" -> C08.run_line
     | "c09" -> C09.run_line
+    | "c10" -> C10.run_line
     | "c14" | "c15" -> C14.run_line
     | _ -> prerr_endline ("unknown property " ^ prop); exit 2 in
   (try
